@@ -108,4 +108,58 @@ theorem cashLetterValidate_eq_model (m : Model) (cl : CashLetter Vals) :
          cases hv : m.validateK Kind.cashLetterControl c with
          | mk o v' => cases o <;> simp)
 
+/-- the loop of `CashLetterIDUnique`: the state it carries (error found, ID of the last cash letter with a header) -/
+def idStep (st : Option String × Bytes) (cl : CashLetter Vals) : Option String × Bytes :=
+  match st.1 with
+  | some _ => st
+  | none =>
+    let cashLetterID := st.2
+    if cl.header.isNone then st else
+    if (cashLetterID == (((cl.header).map (·.s "CashLetterID")).getD [])) then (some "CashLetterID", cashLetterID) else
+    let cashLetterID := (((cl.header).map (·.s "CashLetterID")).getD [])
+    (none, cashLetterID)
+
+theorem idLoop_some (l : List (CashLetter Vals)) (e : String) (p : Bytes) : (l.foldl idStep (some e, p)).1 = some e := by
+  induction l generalizing p with
+  | nil => rfl
+  | cons x r ih => simp only [List.foldl_cons, idStep]; exact ih p
+
+theorem idLoop_eq (l : List (CashLetter Vals)) : ∀ prev : Bytes,
+    ((l.foldl idStep (none, prev)).1.isNone) =
+      cashLetterIDUnique.go prev (l.map (fun cl => cl.header.map (fun h => h.s "CashLetterID"))) := by
+  induction l with
+  | nil => intro prev; rfl
+  | cons x r ih =>
+    intro prev
+    simp only [List.foldl_cons, List.map_cons]
+    cases hh : x.header with
+    | none =>
+      simp only [idStep, hh, Option.isNone_none, if_true, Option.map_none, cashLetterIDUnique.go]
+      exact ih prev
+    | some h =>
+      simp only [idStep, hh, Option.isNone_some, Bool.false_eq_true, if_false, Option.map_some, Option.getD_some,
+        cashLetterIDUnique.go]
+      by_cases hp : (prev == h.s "CashLetterID") = true
+      · simp only [hp, if_true, idLoop_some, Option.isNone_some]
+      · simp only [hp, Bool.false_eq_true, if_false]
+        exact ih (h.s "CashLetterID")
+
+/-- **`File.Validate` (`CashLetterIDUnique`) as translated from file.go is the model's `fileValidate`**: the translation
+returns no error exactly when the model accepts -/
+theorem fileValidate_eq_model (f : File Vals) : (Gen.V.fileValidate f).isNone = fileValidate f := by
+  unfold Gen.V.fileValidate Gen.V.CashLetterIDUnique fileValidate cashLetterIDUnique
+  cases hl : f.cashLetters with
+  | nil => rfl
+  | cons x r =>
+    have hne : decide ((((x :: r).length : Nat) : Int) = (0 : Int)) = false := by
+      simp only [List.length_cons, decide_eq_false_iff_not]; omega
+    simp only [hne, Bool.false_eq_true, if_false, List.map_cons, List.isEmpty_cons, Bool.not_false, Bool.true_and]
+    have := idLoop_eq (x :: r) []
+    simp only [List.map_cons] at this
+    show (match (match (List.foldl idStep (none, []) (x :: r)).1 with | some e => some e | none => none) with
+      | some e => some e | none => none).isNone = _
+    rw [← this]
+    generalize (List.foldl idStep (none, []) (x :: r)).1 = o
+    cases o <;> rfl
+
 end Icl.ValidateEq
